@@ -42,6 +42,12 @@ func runC03(g Glue, j *Job, res *JobResult) {
 		dg = digestAdd(dg, o.String())
 		if o.Panic == "" && o.ErrNil {
 			res.Stats["recovered-parse-judged"]++
+			for _, l := range o.Log {
+				if strings.Contains(l, "E{") && !strings.Contains(l, "symbols=[]") {
+					res.Stats["recovered-after-discarding-symbols"]++
+					break
+				}
+			}
 			if len(o.Problems) > 0 {
 				viol("attribute-identity", 0, "Parse succeeded (after error recovery) but %s", strings.Join(o.Problems, "; "))
 			}
